@@ -108,30 +108,60 @@ func validatorPost(c *Ctx) map[string][]string {
 			continue
 		}
 		v := identObj(info, rs.Value)
-		for _, bs := range rs.Body.List {
-			is, ok := bs.(*ast.IfStmt)
-			if !ok || is.Init != nil || len(is.Body.List) == 0 {
-				continue
-			}
-			be, ok := is.Cond.(*ast.BinaryExpr)
-			if !ok || be.Op != token.EQL || !isNilIdent(info, be.Y) {
-				continue
-			}
-			ret, ok := is.Body.List[len(is.Body.List)-1].(*ast.ReturnStmt)
-			if !ok || len(ret.Results) != 1 || isNilIdent(info, ret.Results[0]) {
-				continue
-			}
-			switch x := be.X.(type) {
-			case *ast.Ident:
-				if identObj(info, x) == v {
-					out[sel.Sel.Name] = append(out[sel.Sel.Name], "")
+		var collect func(list []ast.Stmt, v types.Object, depth int)
+		collect = func(list []ast.Stmt, v types.Object, depth int) {
+			for i, bs := range list {
+				// a helper of the package that is given the element and whose error is returned:
+				// its own leading nil tests count for the element
+				var call *ast.CallExpr
+				switch st := bs.(type) {
+				case *ast.AssignStmt:
+					if len(st.Rhs) == 1 && i+1 < len(list) {
+						if _, isIf := list[i+1].(*ast.IfStmt); isIf {
+							call, _ = ast.Unparen(st.Rhs[0]).(*ast.CallExpr)
+						}
+					}
+				case *ast.IfStmt:
+					if as, ok := st.Init.(*ast.AssignStmt); ok && len(as.Rhs) == 1 {
+						call, _ = ast.Unparen(as.Rhs[0]).(*ast.CallExpr)
+					}
 				}
-			case *ast.SelectorExpr:
-				if identObj(info, x.X) == v {
-					out[sel.Sel.Name] = append(out[sel.Sel.Name], x.Sel.Name)
+				if call != nil && depth < 3 {
+					if h := c.P.Func(calleeKey(info, call)); h != nil && h.Pkg == fi.Pkg && h.Decl.Body != nil && h.Key != "validate.maybeNilDigest" {
+						for ai, a := range call.Args {
+							if identObj(info, a) == v && v != nil {
+								if po := paramObj(h, ai); po != nil {
+									collect(h.Decl.Body.List, po, depth+1)
+								}
+							}
+						}
+					}
+				}
+				is, ok := bs.(*ast.IfStmt)
+				if !ok || is.Init != nil || len(is.Body.List) == 0 {
+					continue
+				}
+				be, ok := is.Cond.(*ast.BinaryExpr)
+				if !ok || be.Op != token.EQL || !isNilIdent(info, be.Y) {
+					continue
+				}
+				ret, ok := is.Body.List[len(is.Body.List)-1].(*ast.ReturnStmt)
+				if !ok || len(ret.Results) != 1 || isNilIdent(info, ret.Results[0]) {
+					continue
+				}
+				switch x := be.X.(type) {
+				case *ast.Ident:
+					if identObj(info, x) == v {
+						out[sel.Sel.Name] = append(out[sel.Sel.Name], "")
+					}
+				case *ast.SelectorExpr:
+					if identObj(info, x.X) == v {
+						out[sel.Sel.Name] = append(out[sel.Sel.Name], x.Sel.Name)
+					}
 				}
 			}
 		}
+		collect(rs.Body.List, v, 0)
 	}
 	return out
 }
